@@ -30,7 +30,7 @@ RULE = ('case = (protocol situation, mutant stream, delivery mode, ending); dist
 ASSUMPTIONS = ['peer eventually closes or resets the connection (final-state monitors are evaluated after that)',
                'bounded progress: at most 400 loop operations between synchronisation points']
 REQUIRED = ['oracle.no-crash', 'oracle.final-state', 'oracle.user-told', 'oracle.invalid-pdu-aborted',
-            'monitor.wellformed-output']
+            'monitor.wellformed-output', 'oracle.silence']
 
 SITUATIONS = {
     'awaiting-request': ('acceptor', []),
@@ -102,6 +102,8 @@ def run_case(res, case, verbose=False):
     if mode == 'pending' and (role != 'acceptor' or prefix):
         mode = 'whole'      # only an acceptor can find bytes waiting when it starts
     ending = 'reset' if r.random() < 0.25 else 'close'
+    # a peer that just stops talking: the connection is closed only later
+    silent = r.random() < 0.2
     stop_after = r.random() < 0.3
     use_file = r.random() < 0.3
     framed, rest = refcodec.split_stream(stream)
@@ -118,6 +120,10 @@ def run_case(res, case, verbose=False):
     for seg in segments:
         if seg:
             script.append(('bytes', seg))
+    silence_at = None
+    if silent:
+        silence_at = len(script)
+        script.append(('time', 11.0))
     script.append((ending,))
     script.append(('time', 11.0))
     if stop_after:
@@ -135,7 +141,7 @@ def run_case(res, case, verbose=False):
     sim = simnet.Sim(role, script, first_pending=(mode == 'pending'), **kwargs)
     sim.run()
     res.evaluations += 1
-    case = dict(case, label=label, mode=mode, ending=ending)
+    case = dict(case, label=label, mode=mode, ending=ending, silent=silent)
     res.distinct.add('%s|%s|%s|%s|%s|%s' % (name, label, mode, ending, sim.outcome,
                                             tuple(w[0] for w in sim.wire[-2:])))
     res.sample({'case': case, 'stream_hex': stream[:80].hex(), 'stream_len': len(stream),
@@ -157,6 +163,17 @@ def run_case(res, case, verbose=False):
                       '%s, mutant %s (%s, %s): run() %s: %s' % (name, label, mode, ending,
                                                                 sim.outcome, sim.error), case)
         return
+    # 1b. silence: a provider waiting for the peer's request or for the peer to close must not
+    # wait for ever (ARTIM); everywhere else silence alone ends nothing by itself
+    if silence_at is not None and silence_at not in sim.skipped:
+        after = [t for t in sim.trace if t['pos'] >= silence_at + 1]
+        if after:
+            res.count('oracle.silence')
+            st = after[0]
+            if st['state'] in (1, 12) and not st['closed']:
+                res.violation('waits-for-ever-on-silent-peer', 'C12.silence',
+                              '%s, mutant %s (%s): 11 s after the last byte still in Sta%d with the connection '
+                              'open' % (name, label, mode, st['state'] + 1), case)
     # 2. after the peer closed: idle and closed
     res.count('oracle.final-state')
     if sim.state() != 0 or not sim.all_closed():
